@@ -46,7 +46,8 @@ def meta(tier, seed):
                                           "policies beyond eg0/ucb/lucb: n<=2 on 1d and 2d6"]}[tier],
                    "metrics": METRICS, "radii": "every distance value occurring in the grid (euclidean: math.sqrt of the squared distance), at most 6", "k": "1..n",
                    "policies": LP_QUICK if tier == "quick" else LP_THOROUGH, "rewards": "row i rewarded 2^i (binary i%2 for Thompson)",
-                   "earlier_life": "a third of the bandits first live another life (fit on other rows, a query) before the history"},
+                   "earlier_life": "a third of the bandits first live another life (fit on other rows, a query) before the history, "
+                                   "get float64 contexts and answer a query between any two training calls"},
         "assumptions": ["metrics whose distances are irrational on the grid are not checked at the boundary",
                         "the learning policy's own arithmetic is C01/C02's subject; here it is the reference"],
     }
@@ -192,7 +193,13 @@ def judge_query(mab, cfg, ln, kind, metric, param, thr, hist_rows, q, seeds, got
 def build(cfg, history):
     mab = ops.build(cfg)
     for op in history:
-        ops.apply(mab, op)
+        if op[0].startswith("predict"):
+            try:                      # an interposed query may be outside the domain (KNearest with fewer rows than k)
+                ops.apply(mab, op)
+            except Exception:         # noqa: BLE001
+                pass
+        else:
+            ops.apply(mab, op)
     return mab
 
 
@@ -215,8 +222,10 @@ def judge(cfg, ln, kind, metric, param, thr, p_vec, hist_rows, comp, queries, on
         history.append(["predict", [list(queries[0])]])
     for i, (a, b) in enumerate(comp):
         rows = hist_rows[a:b]
+        if prefit and i > 0:
+            history.append(["predict_expectations", [[float(v) for v in queries[-1]]]])     # a query between training calls
         history.append(["fit" if i == 0 else "partial_fit", [r[0] for r in rows], [r[2] for r in rows],
-                        [list(r[1]) for r in rows]])
+                        [[float(v) for v in r[1]] if prefit else list(r[1]) for r in rows]])     # float64 contexts there
     mab = build(cfg, history)
     msgs = []
     seeds = row_seeds(mab, len(queries))
